@@ -19,11 +19,12 @@ if os.path.isdir(cd):
         if fn.endswith(".json"):
             claims[fn[:-5].upper()] = json.load(open(os.path.join(cd, fn)))
 
+enabled = set(open(os.path.join(HERE, "tools", "enabled.txt")).read().split())
 checks, na = [], []
 for p in props:
     pid = p["id"]
     c = claims.get(pid)
-    if c and os.path.exists(os.path.join(HERE, "harness", pid.lower() + ".py")):
+    if c and pid in enabled and os.path.exists(os.path.join(HERE, "harness", pid.lower() + ".py")):
         checks.append(dict(
             property_id=pid,
             quick_cmd=f"./vcheck {pid} --tier quick",
